@@ -102,13 +102,31 @@ class ImageBatch(DataTensor):
         r"""Get spatial sampling grids from args passed to __torch_function__."""
         if not args:
             return None
+        # Dimension argument of torch.cat() and split functions may also be given as positional argument
+        dim = kwargs.get("dim")
+        if dim is None:
+            if func == torch.cat:
+                dim = args[1] if len(args) > 1 else 0
+            elif len(args) > 2 and func in (
+                torch.split,
+                Tensor.split,
+                torch.split_with_sizes,
+                Tensor.split_with_sizes,
+                torch.tensor_split,
+                Tensor.tensor_split,
+            ):
+                dim = args[2]
+            else:
+                dim = 0
         if isinstance(args[0], (tuple, list)):
             args = args[0]
         grids: Sequence[Sequence[Grid]]
         grids = [g for g in (getattr(arg, "_grid", None) for arg in args) if g is not None]
         if not grids:
             return None
-        if kwargs.get("dim", 0) == 0:
+        if isinstance(dim, int) and dim < 0 and args and isinstance(args[0], Tensor):
+            dim += args[0].ndim
+        if dim == 0:
             if func == torch.cat:
                 return [g for grid in grids for g in grid]
             if func in (torch.split, Tensor.split):
@@ -194,6 +212,9 @@ class ImageBatch(DataTensor):
                 raise AssertionError(f"expected split 'data' to be tuple or list, got {type(data)}")
             if type(grid) not in (tuple, list):
                 raise AssertionError(f"expected split 'grid' to be tuple or list, got {type(grid)}")
+            if grid and isinstance(grid[0], Grid):
+                # Split along other than batch dimension, each part contains data of all images
+                return tuple(cls._torch_function_result(func, d, grid) for d in data)
             if len(grid) != len(data):
                 raise AssertionError(
                     f"expected 'grid' tuple length to be equal batch size, but {len(grid)} != {len(data)}"
